@@ -171,7 +171,26 @@ fn check_inner(sub: &str, g: &G, toks: &[char], gap_seed: u64, l: &mut Local) ->
         _ => {
             let si = StrIn::new(toks);
             let s: &str = &si.s;
-            run_kind::<&str>(sub, g, toks, &extra, &|| s, &si.sm, si.base(), &|o| s.is_char_boundary(o), l)
+            run_kind::<&str>(sub, g, toks, &extra, &|| s, &si.sm, si.base(), &|o| s.is_char_boundary(o), l)?;
+            // the same grammar with the zero-sized error type: every captured span and slice must be the same
+            let mk = |observed: bool| {
+                let mut b1 = Bld::<&str, RichS>::new(g, observed);
+                b1.cap_spans = true;
+                let mut b2 = Bld::<&str, chumsky::error::EmptyErr>::new(g, observed);
+                b2.cap_spans = true;
+                (run_parse(&b1.build(g), s), run_parse(&b2.build(g), s))
+            };
+            let (r, z) = mk(true);
+            l.evals += 2;
+            if r.panic.is_none() && z.panic.is_none() && r.has_output && z.has_output {
+                l.bump("zero_sized_error_type_runs");
+                if r.out != z.out {
+                    let mut c = Case::new(ID, sub, g, toks);
+                    c.extra = extra.clone();
+                    return Err((c, Fail::new("C07/zero-sized-error-span", format!("the captured spans / slices differ between Rich and EmptyErr builds of the same grammar: {:?} vs {:?}", r.out, z.out))));
+                }
+            }
+            Ok(())
         }
     }
 }
